@@ -143,3 +143,29 @@ Proof.
   split; [vm_compute; reflexivity|]. split; [exact Hl|].
   exact (received_not_listed_not_inv _ _ _ Hl).
 Qed.
+
+(* ---- a released key is immediately reusable, a used key is refused (concrete instance) ---------- *)
+Definition results (ops : list op) : list result :=
+  (fold_left (λ '(s, acc) o, let '(s', r) := step s o in (s', acc ++ [r])) ops (init, [])).2.
+
+(* interface 2 of node 1 sends message 3 named 1; message 4 is also named 1 and has the same id:
+   adding it is refused for the name, then (after 3 is renamed) for the id, then (after 3 got another
+   id) accepted; static CAN-ID 7 of message 3 is then refused for 4 and accepted once 3 released it *)
+Definition reuse_history : list op :=
+  [ NewNode 1%N 1%Z 1; NewMessage 1%N 5%Z 8%Z; NewMessage 1%N 5%Z 8%Z;
+    IfAddSent 2%positive (Some 3%positive);
+    IfAddSent 2%positive (Some 4%positive);        (* name in use *)
+    MsgUpdateName 3%positive 2%N;
+    IfAddSent 2%positive (Some 4%positive);        (* id in use *)
+    MsgUpdateID 3%positive 6%Z;
+    IfAddSent 2%positive (Some 4%positive);        (* accepted *)
+    MsgSetStatic 3%positive 7%Z;
+    MsgSetStatic 4%positive 7%Z;                   (* static CAN-ID in use *)
+    MsgUpdateID 3%positive 9%Z;                    (* releases 7 *)
+    MsgSetStatic 4%positive 7%Z ].                 (* accepted *)
+
+Example released_key_reused :
+  results reuse_history =
+  [ Ok; Ok; Ok; Ok; Err [(Duplicated, WName)]; Ok; Err [(Duplicated, WMessageID)]; Ok; Ok; Ok;
+    Err [(Duplicated, WCANID)]; Ok; Ok ].
+Proof. vm_compute. reflexivity. Qed.
